@@ -39,7 +39,8 @@ Proof.
     + apply Hpend; auto. intros E. rewrite E in Eq. discriminate.
 Qed.
 
-Inductive opc := OIdle (r : pres) | OEnter (g : nat) | OIn (g : nat).
+(** [p]: some group has answered Pending in this poll *)
+Inductive opc := OIdle (r : pres) | OEnter (g : nat) (p : bool) | OIn (g : nat) (p : bool).
 
 Record mst := { grp : list st; mW : nat; gwoken : bool; mo : opc }.
 
@@ -76,43 +77,51 @@ Inductive mstep (m : mst) : mst -> Prop :=
     mstep m {| grp := upd (grp m) g s'; mW := mW m; gwoken := gwoken m; mo := OIdle RNone |}
 | m_start r W :
     mo m = OIdle r -> grp m <> [] ->
-    mstep m {| grp := grp m; mW := W; gwoken := false; mo := OEnter 0 |}
-| m_register g s r :
-    mo m = OEnter g -> nth_error (grp m) g = Some s -> pp s = PIdle r ->
+    mstep m {| grp := grp m; mW := W; gwoken := false; mo := OEnter 0 false |}
+| m_register g p s r :
+    mo m = OEnter g p -> nth_error (grp m) g = Some s -> pp s = PIdle r ->
     mstep m {| grp := upd (grp m) g
                         {| flag := flag s; armed := armed s; Q := Q s; reg := Some (mW m); cur := mW m; woken := false;
                            ws := ws s; pp := PLoop 0 |};
-               mW := mW m; gwoken := gwoken m; mo := OIn g |}
-| m_owner g s s' :
-    mo m = OIn g -> nth_error (grp m) g = Some s -> owner_step s s' -> (forall r, pp s' <> PIdle r) ->
+               mW := mW m; gwoken := gwoken m; mo := OIn g p |}
+| m_group_none g p s r :
+    mo m = OEnter g p -> nth_error (grp m) g = Some s -> pp s = PIdle r ->
+    mstep m {| grp := upd (grp m) g {| flag := flag s; armed := armed s; Q := Q s; reg := reg s; cur := cur s;
+                                         woken := woken s; ws := ws s; pp := PIdle RNone |};
+               mW := mW m; gwoken := gwoken m;
+               mo := if Nat.ltb (S g) (length (grp m)) then OEnter (S g) p
+                     else if p then OIdle RPending else OIdle RNone |}
+| m_owner g p s s' :
+    mo m = OIn g p -> nth_error (grp m) g = Some s -> owner_step s s' -> (forall r, pp s' <> PIdle r) ->
     mstep m {| grp := upd (grp m) g s'; mW := mW m; gwoken := gwoken m || woken s'; mo := mo m |}
-| m_group_pending g s s' :
-    mo m = OIn g -> nth_error (grp m) g = Some s -> owner_step s s' -> pp s' = PIdle RPending ->
+| m_group_pending g p s s' :
+    mo m = OIn g p -> nth_error (grp m) g = Some s -> owner_step s s' -> pp s' = PIdle RPending ->
     mstep m {| grp := upd (grp m) g s'; mW := mW m; gwoken := gwoken m || woken s';
-               mo := if Nat.ltb (S g) (length (grp m)) then OEnter (S g) else OIdle RPending |}
-| m_group_ready g s s' :
-    mo m = OIn g -> nth_error (grp m) g = Some s -> owner_step s s' -> pp s' = PIdle RReady ->
+               mo := if Nat.ltb (S g) (length (grp m)) then OEnter (S g) true else OIdle RPending |}
+| m_group_ready g p s s' :
+    mo m = OIn g p -> nth_error (grp m) g = Some s -> owner_step s s' -> pp s' = PIdle RReady ->
     mstep m {| grp := upd (grp m) g s'; mW := mW m; gwoken := gwoken m || woken s'; mo := OIdle RReady |}.
 
 Inductive mreach : mst -> Prop :=
 | mr_init : mreach minit
 | mr_step m m' : mreach m -> mstep m m' -> mreach m'.
 
-(** groups that have answered Pending in the current poll *)
+(** groups that have been visited in the current poll *)
 Definition visited (m : mst) (g : nat) : Prop :=
   match mo m with
   | OIdle RPending => True
-  | OEnter v | OIn v => g < v
+  | OEnter v _ | OIn v _ => g < v
   | _ => False
   end.
 
 Record MInv (m : mst) : Prop := {
   mi_inv : forall g s, nth_error (grp m) g = Some s -> Inv s;
-  mi_visited : forall g s, nth_error (grp m) g = Some s -> visited m g ->
-                 pp s = PIdle RPending /\ cur s = mW m /\ (woken s = true -> gwoken m = true);
-  mi_in : forall g s, mo m = OIn g -> nth_error (grp m) g = Some s ->
+  mi_visited : forall g s, nth_error (grp m) g = Some s -> visited m g -> pp s = PIdle RPending ->
                  cur s = mW m /\ (woken s = true -> gwoken m = true);
-  mi_bound : forall g, (mo m = OEnter g \/ mo m = OIn g) -> g < length (grp m);
+  mi_vpp : forall g s, nth_error (grp m) g = Some s -> visited m g -> pp s = PIdle RPending \/ pp s = PIdle RNone;
+  mi_in : forall g p s, mo m = OIn g p -> nth_error (grp m) g = Some s ->
+                 cur s = mW m /\ (woken s = true -> gwoken m = true);
+  mi_bound : forall g p, (mo m = OEnter g p \/ mo m = OIn g p) -> g < length (grp m);
 }.
 
 Lemma nth_upd_same {A} (l : list A) g x y : nth_error l g = Some y -> nth_error (upd l g x) g = Some x.
@@ -138,108 +147,162 @@ Proof.
   constructor; simpl.
   - intros [|g] s H; discriminate.
   - intros [|g] s H; discriminate.
-  - intros g s H; discriminate.
-  - intros g [H|H]; discriminate.
+  - intros [|g] s H; discriminate.
+  - intros g p s H; discriminate.
+  - intros g p [H|H]; discriminate.
+Qed.
+
+(** where the owner goes after group [g] *)
+Definition next_of (m : mst) (g : nat) (p : bool) : opc :=
+  if Nat.ltb (S g) (length (grp m)) then OEnter (S g) p else if p then OIdle RPending else OIdle RNone.
+
+Lemma visited_next m g p h (gs : list st) W gw :
+  length gs = length (grp m) -> g < length (grp m) ->
+  visited {| grp := gs; mW := W; gwoken := gw; mo := next_of m g p |} h -> h < length gs -> h < S g /\ (Nat.ltb (S g) (length (grp m)) = false -> p = true).
+Proof.
+  unfold visited, next_of. cbn [mo]. intros Hl Hg Hv Hh.
+  destruct (Nat.ltb (S g) (length (grp m))) eqn:E; cbn [mo] in Hv.
+  - split; [lia|discriminate].
+  - apply Nat.ltb_ge in E. destruct p; cbn [mo] in Hv; [|contradiction]. split; [lia|auto].
 Qed.
 
 Theorem mstep_inv m m' : MInv m -> mstep m m' -> MInv m'.
 Proof.
-  intros [Hinv Hvis Hin Hb] Hs.
+  intros [Hinv Hvis Hvpp Hin Hb] Hs.
   destruct Hs as [g s s' Hg (St & Hpp & Hwk & Hcur)
                  | g s s' Hg (St & Hpp & Hcur & Hwk)
                  | r Ho
                  | g s s' r Ho Hg St Hws Hcur Hwk Hpp0 Hpp'
                  | r W Ho Hne
-                 | g s r Ho Hg Hpp
-                 | g s s' Ho Hg Hos Hnp
-                 | g s s' Ho Hg Hos Hp
-                 | g s s' Ho Hg Hos Hp].
+                 | g p s r Ho Hg Hpp
+                 | g p s r Ho Hg Hpp
+                 | g p s s' Ho Hg Hos Hnp
+                 | g p s s' Ho Hg Hos Hp
+                 | g p s s' Ho Hg Hos Hp].
   - (* quiet waker step *)
     constructor; cbn [grp mW gwoken mo]; unfold visited; cbn [mo].
     + intros h y Hy. apply nth_upd_cases in Hy as [(-> & -> & _)|[_ Hy]]; eauto. eapply step_inv; eauto.
-    + intros h y Hy Hv. apply nth_upd_cases in Hy as [(-> & -> & _)|[_ Hy]]; [|apply (Hvis h y); auto].
-      destruct (Hvis g s Hg Hv) as (A1 & A2 & A3). rewrite Hpp, Hcur, Hwk. auto.
-    + intros h y Hoh Hy. apply nth_upd_cases in Hy as [(-> & -> & _)|[_ Hy]]; [|apply (Hin h y); auto].
-      destruct (Hin g s Hoh Hg) as (A2 & A3). rewrite Hcur, Hwk. auto.
-    + intros h Hh. rewrite upd_length'. auto.
+    + intros h y Hy Hv Hyp. apply nth_upd_cases in Hy as [(-> & -> & _)|[_ Hy]]; [|apply (Hvis h y); auto].
+      rewrite Hpp in Hyp. destruct (Hvis g s Hg Hv Hyp) as (A2 & A3). rewrite Hcur, Hwk. auto.
+    + intros h y Hy Hv. apply nth_upd_cases in Hy as [(-> & -> & _)|[_ Hy]]; [|apply (Hvpp h y); auto].
+      rewrite Hpp. apply (Hvpp g s); auto.
+    + intros h p y Hoh Hy. apply nth_upd_cases in Hy as [(-> & -> & _)|[_ Hy]]; [|apply (Hin h p y); auto].
+      destruct (Hin g p s Hoh Hg) as (A2 & A3). rewrite Hcur, Hwk. auto.
+    + intros h p Hh. rewrite upd_length'. eauto.
   - (* notify *)
     assert (Hc : forall V, reg s = Some V -> V = cur s) by (apply (i_cur s (Hinv g s Hg))).
     constructor; cbn [grp mW gwoken mo]; unfold visited; cbn [mo].
     + intros h y Hy. apply nth_upd_cases in Hy as [(-> & -> & _)|[_ Hy]]; eauto. eapply step_inv; eauto.
-    + intros h y Hy Hv. apply nth_upd_cases in Hy as [(-> & -> & _)|[Hne Hy]].
-      * destruct (Hvis g s Hg Hv) as (A1 & A2 & A3). rewrite Hpp, Hcur. splits; auto.
+    + intros h y Hy Hv Hyp. apply nth_upd_cases in Hy as [(-> & -> & _)|[Hne Hy]].
+      * rewrite Hpp in Hyp. destruct (Hvis g s Hg Hv Hyp) as (A2 & A3). rewrite Hcur. split; auto.
         rewrite Hwk. destruct (reg s) as [V|] eqn:Er; [|auto]. intros _. rewrite (Hc V eq_refl), A2, Nat.eqb_refl. reflexivity.
-      * destruct (Hvis h y Hy Hv) as (A1 & A2 & A3). splits; auto. intros Hw. specialize (A3 Hw).
+      * destruct (Hvis h y Hy Hv Hyp) as (A2 & A3). split; auto. intros Hw. specialize (A3 Hw).
         destruct (reg s) as [V|]; auto. destruct (Nat.eqb V (mW m)); auto.
-    + intros h y Hoh Hy. apply nth_upd_cases in Hy as [(-> & -> & _)|[Hne Hy]].
-      * destruct (Hin g s Hoh Hg) as (A2 & A3). rewrite Hcur. split; auto.
+    + intros h y Hy Hv. apply nth_upd_cases in Hy as [(-> & -> & _)|[_ Hy]]; [|apply (Hvpp h y); auto].
+      rewrite Hpp. apply (Hvpp g s); auto.
+    + intros h p y Hoh Hy. apply nth_upd_cases in Hy as [(-> & -> & _)|[Hne Hy]].
+      * destruct (Hin g p s Hoh Hg) as (A2 & A3). rewrite Hcur. split; auto.
         rewrite Hwk. destruct (reg s) as [V|] eqn:Er; [|auto]. intros _. rewrite (Hc V eq_refl), A2, Nat.eqb_refl. reflexivity.
-      * destruct (Hin h y Hoh Hy) as (A2 & A3). split; auto. intros Hw. specialize (A3 Hw).
+      * destruct (Hin h p y Hoh Hy) as (A2 & A3). split; auto. intros Hw. specialize (A3 Hw).
         destruct (reg s) as [V|]; auto. destruct (Nat.eqb V (mW m)); auto.
-    + intros h Hh. rewrite upd_length'. auto.
+    + intros h p Hh. rewrite upd_length'. eauto.
   - (* new group *)
     constructor; cbn [grp mW gwoken mo]; unfold visited; cbn [mo]; try (intros; contradiction); try (intros; discriminate).
     + intros h y Hy. destruct (Nat.lt_ge_cases h (length (grp m))) as [Hl|Hl].
       * rewrite nth_error_app1 in Hy by auto. eauto.
       * rewrite nth_error_app2 in Hy by auto. destruct (h - length (grp m)) as [|k]; simpl in Hy; [|destruct k; discriminate].
         inversion Hy; subst. apply Inv_init.
-    + intros h [H|H]; discriminate.
+    + intros h p [H|H]; discriminate.
   - (* push *)
     constructor; cbn [grp mW gwoken mo]; unfold visited; cbn [mo]; try (intros; contradiction); try (intros; discriminate).
     + intros h y Hy. apply nth_upd_cases in Hy as [(-> & -> & _)|[_ Hy]]; eauto. eapply step_inv; eauto.
-    + intros h [H|H]; discriminate.
+    + intros h p [H|H]; discriminate.
   - (* start *)
     constructor; cbn [grp mW gwoken mo]; unfold visited; cbn [mo]; eauto.
     + intros h y Hy Hv. lia.
-    + intros h y H; discriminate.
-    + intros h [H|H]; inversion H; subst. destruct (grp m); [contradiction|simpl; lia].
+    + intros h y Hy Hv. lia.
+    + intros h p y H; discriminate.
+    + intros h p [H|H]; inversion H; subst. destruct (grp m); [contradiction|simpl; lia].
   - (* register *)
     assert (Hst : step B s {| flag := flag s; armed := armed s; Q := Q s; reg := Some (mW m); cur := mW m; woken := false; ws := ws s; pp := PLoop 0 |})
       by (eapply p_start; eauto).
     constructor; cbn [grp mW gwoken mo]; unfold visited; cbn [mo].
     + intros h y Hy. apply nth_upd_cases in Hy as [(-> & -> & _)|[_ Hy]]; eauto. eapply step_inv; eauto.
+    + intros h y Hy Hv Hyp. apply nth_upd_cases in Hy as [(-> & -> & _)|[_ Hy]]; [lia|].
+      apply (Hvis h y Hy); auto. unfold visited. rewrite Ho. exact Hv.
     + intros h y Hy Hv. apply nth_upd_cases in Hy as [(-> & -> & _)|[_ Hy]]; [lia|].
-      apply (Hvis h y Hy). unfold visited. rewrite Ho. exact Hv.
-    + intros h y Hoh Hy. inversion Hoh; subst h. rewrite (nth_upd_same _ _ _ _ Hg) in Hy. inversion Hy; subst y. simpl. split; auto. discriminate.
-    + intros h [H|H]; inversion H; subst. rewrite upd_length'. apply Hb. auto.
+      apply (Hvpp h y Hy). unfold visited. rewrite Ho. exact Hv.
+    + intros h p0 y Hoh Hy. inversion Hoh; subst h p0. rewrite (nth_upd_same _ _ _ _ Hg) in Hy. inversion Hy; subst y. simpl. split; auto. discriminate.
+    + intros h p0 [H|H]; inversion H; subst. rewrite upd_length'. eapply Hb. left; eauto.
+  - (* an empty group answers None: on to the next group *)
+    assert (Hgl : g < length (grp m)) by (eapply Hb; left; eauto).
+    set (s0 := {| flag := flag s; armed := armed s; Q := Q s; reg := reg s; cur := cur s; woken := woken s; ws := ws s; pp := PIdle RNone |}).
+    assert (Hst : step B s s0) by (eapply p_none; eauto).
+    fold (next_of m g p).
+    constructor; cbn [grp mW gwoken].
+    + intros h y Hy. apply nth_upd_cases in Hy as [(-> & -> & _)|[_ Hy]]; eauto. eapply step_inv; eauto.
+    + intros h y Hy Hv Hyp.
+      assert (Hh : h < length (upd (grp m) g s0)) by (apply nth_error_Some; congruence).
+      destruct (visited_next m g p h _ _ _ (upd_length' _ _ _) Hgl Hv Hh) as [Hlt _].
+      apply nth_upd_cases in Hy as [(-> & -> & _)|[Hne Hy]]; [discriminate|].
+      apply (Hvis h y Hy); auto. unfold visited. rewrite Ho. lia.
+    + intros h y Hy Hv.
+      assert (Hh : h < length (upd (grp m) g s0)) by (apply nth_error_Some; congruence).
+      destruct (visited_next m g p h _ _ _ (upd_length' _ _ _) Hgl Hv Hh) as [Hlt _].
+      apply nth_upd_cases in Hy as [(-> & -> & _)|[Hne Hy]]; [right; reflexivity|].
+      apply (Hvpp h y Hy). unfold visited. rewrite Ho. lia.
+    + intros h p0 y Hoh Hy. unfold next_of in Hoh. cbn [mo] in Hoh.
+      destruct (Nat.ltb (S g) (length (grp m))); [discriminate|destruct p; discriminate].
+    + intros h p0 Hh. rewrite upd_length'. unfold next_of in Hh. cbn [mo] in Hh.
+      destruct (Nat.ltb (S g) (length (grp m))) eqn:E; [|destruct p; destruct Hh as [H|H]; discriminate].
+      destruct Hh as [H|H]; inversion H; subst. apply Nat.ltb_lt in E. exact E.
   - (* owner step inside the loop *)
     assert (Hfacts : step B s s' /\ cur s' = cur s).
     { destruct Hos as [(A & _ & C & _)|(A & _ & C & _)]; auto. }
     destruct Hfacts as (St & Hcur).
     constructor; cbn [grp mW gwoken mo].
     + intros h y Hy. apply nth_upd_cases in Hy as [(-> & -> & _)|[_ Hy]]; eauto. eapply step_inv; eauto.
+    + intros h y Hy Hv Hyp. unfold visited in Hv. cbn [mo] in Hv. rewrite Ho in Hv.
+      apply nth_upd_cases in Hy as [(-> & -> & _)|[_ Hy]]; [lia|].
+      destruct (Hvis h y Hy) as (A2 & A3); auto; [unfold visited; rewrite Ho; exact Hv|]. split; auto.
+      intros Hw. rewrite (A3 Hw). reflexivity.
     + intros h y Hy Hv. unfold visited in Hv. cbn [mo] in Hv. rewrite Ho in Hv.
       apply nth_upd_cases in Hy as [(-> & -> & _)|[_ Hy]]; [lia|].
-      destruct (Hvis h y Hy) as (A1 & A2 & A3); [unfold visited; rewrite Ho; exact Hv|]. splits; auto.
-      intros Hw. rewrite (A3 Hw). reflexivity.
-    + intros h y Hoh Hy. rewrite Ho in Hoh. inversion Hoh; subst h. rewrite (nth_upd_same _ _ _ _ Hg) in Hy. inversion Hy; subst y.
-      destruct (Hin g s Ho Hg) as (A2 & A3). rewrite Hcur. split; auto. intros Hw. rewrite Hw. apply orb_true_r.
-    + intros h Hh. rewrite upd_length'. auto.
+      apply (Hvpp h y Hy). unfold visited. rewrite Ho. exact Hv.
+    + intros h p0 y Hoh Hy. rewrite Ho in Hoh. inversion Hoh; subst h p0. rewrite (nth_upd_same _ _ _ _ Hg) in Hy. inversion Hy; subst y.
+      destruct (Hin g p s Ho Hg) as (A2 & A3). rewrite Hcur. split; auto. intros Hw. rewrite Hw. apply orb_true_r.
+    + intros h p0 Hh. rewrite upd_length'. eauto.
   - (* the group answers Pending: on to the next group, or the collection answers Pending *)
+    assert (Hgl : g < length (grp m)) by (eapply Hb; right; eauto).
     assert (Hfacts : step B s s' /\ cur s' = cur s).
     { destruct Hos as [(A & _ & C & _)|(A & _ & C & _)]; auto. }
     destruct Hfacts as (St & Hcur).
-    destruct (Hin g s Ho Hg) as (A2 & A3).
-    assert (Hnew : pp s' = PIdle RPending /\ cur s' = mW m /\ (woken s' = true -> (gwoken m || woken s') = true)).
-    { splits; auto; [congruence|]. intros Hw. rewrite Hw. apply orb_true_r. }
-    constructor; cbn [grp mW gwoken mo]; unfold visited; cbn [mo].
+    destruct (Hin g p s Ho Hg) as (A2 & A3).
+    change (if Nat.ltb (S g) (length (grp m)) then OEnter (S g) true else OIdle RPending) with (next_of m g true).
+    constructor; cbn [grp mW gwoken].
     + intros h y Hy. apply nth_upd_cases in Hy as [(-> & -> & _)|[_ Hy]]; eauto. eapply step_inv; eauto.
-    + intros h y Hy Hv. apply nth_upd_cases in Hy as [(-> & -> & _)|[Hne Hy]]; [exact Hnew|].
-      assert (Hlt : h < g).
-      { destruct (Nat.ltb (S g) (length (grp m))) eqn:E; cbn [mo] in Hv; [lia|].
-        apply Nat.ltb_ge in E. assert (h < length (grp m)) by (apply nth_error_Some; congruence).
-        assert (g < length (grp m)) by (apply Hb; auto). lia. }
-      destruct (Hvis h y Hy) as (B1 & B2 & B3); [unfold visited; rewrite Ho; exact Hlt|]. splits; auto.
-      intros Hw. rewrite (B3 Hw). reflexivity.
-    + intros h y Hoh Hy. destruct (Nat.ltb (S g) (length (grp m))); discriminate.
-    + intros h Hh. rewrite upd_length'. destruct (Nat.ltb (S g) (length (grp m))) eqn:E; destruct Hh as [H|H]; try discriminate.
-      inversion H; subst. apply Nat.ltb_lt in E. exact E.
+    + intros h y Hy Hv Hyp.
+      assert (Hh : h < length (upd (grp m) g s')) by (apply nth_error_Some; congruence).
+      destruct (visited_next m g true h _ _ _ (upd_length' _ _ _) Hgl Hv Hh) as [Hlt _].
+      apply nth_upd_cases in Hy as [(-> & -> & _)|[Hne Hy]].
+      * split; [congruence|]. intros Hw. rewrite Hw. apply orb_true_r.
+      * destruct (Hvis h y Hy) as (B2 & B3); auto; [unfold visited; rewrite Ho; lia|]. split; auto.
+        intros Hw. rewrite (B3 Hw). reflexivity.
+    + intros h y Hy Hv.
+      assert (Hh : h < length (upd (grp m) g s')) by (apply nth_error_Some; congruence).
+      destruct (visited_next m g true h _ _ _ (upd_length' _ _ _) Hgl Hv Hh) as [Hlt _].
+      apply nth_upd_cases in Hy as [(-> & -> & _)|[Hne Hy]]; [left; exact Hp|].
+      apply (Hvpp h y Hy). unfold visited. rewrite Ho. lia.
+    + intros h p0 y Hoh Hy. unfold next_of in Hoh. cbn [mo] in Hoh. destruct (Nat.ltb (S g) (length (grp m))); discriminate.
+    + intros h p0 Hh. rewrite upd_length'. unfold next_of in Hh. cbn [mo] in Hh.
+      destruct (Nat.ltb (S g) (length (grp m))) eqn:E; [|destruct Hh as [H|H]; discriminate].
+      destruct Hh as [H|H]; inversion H; subst. apply Nat.ltb_lt in E. exact E.
   - (* the group yields: the collection answers Ready *)
     assert (Hfacts : step B s s').
     { destruct Hos as [(A & _)|(A & _)]; auto. }
     constructor; cbn [grp mW gwoken mo]; unfold visited; cbn [mo]; try (intros; contradiction); try (intros; discriminate).
     + intros h y Hy. apply nth_upd_cases in Hy as [(-> & -> & _)|[_ Hy]]; eauto. eapply step_inv; eauto.
-    + intros h [H|H]; discriminate.
+    + intros h p0 [H|H]; discriminate.
 Qed.
 
 Theorem mreach_inv m : mreach m -> MInv m.
@@ -249,23 +312,26 @@ Proof. induction 1 as [|m m' _ IH Hs]; [apply MInv_init|eapply mstep_inv; eauto]
 Theorem pending_never_loses_a_wake_groups m :
   mreach m -> mo m = OIdle RPending -> gwoken m = false ->
   forall g s, nth_error (grp m) g = Some s ->
-    reg s = Some (mW m) /\ forall i, armed s i = true -> in_flight s.
+    (pp s = PIdle RPending \/ pp s = PIdle RNone)
+    /\ (pp s = PIdle RPending -> reg s = Some (mW m) /\ forall i, armed s i = true -> in_flight s).
 Proof.
-  intros Hr Ho Hw g s Hg. destruct (mreach_inv m Hr) as [Hinv Hvis _ _].
-  destruct (Hvis g s Hg) as (A1 & A2 & A3); [unfold visited; rewrite Ho; exact I|].
+  intros Hr Ho Hw g s Hg. destruct (mreach_inv m Hr) as [Hinv Hvis Hvpp _ _].
+  assert (Hv : visited m g) by (unfold visited; rewrite Ho; exact I).
+  split; [apply (Hvpp g s Hg Hv)|]. intros A1.
+  destruct (Hvis g s Hg Hv A1) as (A2 & A3).
   assert (Hws : woken s = false).
   { destruct (woken s) eqn:E; auto. rewrite (A3 eq_refl) in Hw. discriminate. }
   destruct (inv_pending s (Hinv g s Hg) A1 Hws) as [R1 R2]. split; [rewrite R1, A2; reflexivity|exact R2].
 Qed.
 
 (** once no call is in flight in any group: Pending with a child that needs a poll, in whatever
-    group, means the task waker of that poll has been invoked *)
+    group that answered Pending, means the task waker of that poll has been invoked *)
 Corollary quiescent_pending_means_woken_groups m g s i :
-  mreach m -> mo m = OIdle RPending -> nth_error (grp m) g = Some s -> ~ in_flight s -> armed s i = true ->
-  gwoken m = true.
+  mreach m -> mo m = OIdle RPending -> nth_error (grp m) g = Some s -> pp s = PIdle RPending ->
+  ~ in_flight s -> armed s i = true -> gwoken m = true.
 Proof.
-  intros Hr Ho Hg Hnf Hi. destruct (gwoken m) eqn:Hw; auto.
-  destruct (pending_never_loses_a_wake_groups m Hr Ho Hw g s Hg) as [_ H]. exfalso. apply Hnf. eauto.
+  intros Hr Ho Hg Hp Hnf Hi. destruct (gwoken m) eqn:Hw; auto.
+  destruct (pending_never_loses_a_wake_groups m Hr Ho Hw g s Hg) as [_ H]. destruct (H Hp) as [_ H']. exfalso. apply Hnf. eauto.
 Qed.
 
 End WithBudget.
@@ -289,13 +355,13 @@ Proof.
   split.
   - assert (R0 : mreach 61 {| grp := [init]; mW := 0; gwoken := false; mo := OIdle RNone |}).
     { eapply mr_step; [apply mr_init|]. apply (m_new_group 61 minit RNone). reflexivity. }
-    assert (R1 : mreach 61 {| grp := [init]; mW := 7; gwoken := false; mo := OEnter 0 |}).
+    assert (R1 : mreach 61 {| grp := [init]; mW := 7; gwoken := false; mo := OEnter 0 false |}).
     { eapply mr_step; [exact R0|]. apply (m_start 61 {| grp := [init]; mW := 0; gwoken := false; mo := OIdle RNone |} RNone 7); [reflexivity|discriminate]. }
-    assert (R2 : mreach 61 {| grp := [s1]; mW := 7; gwoken := false; mo := OIn 0 |}).
-    { eapply mr_step; [exact R1|]. apply (m_register 61 {| grp := [init]; mW := 7; gwoken := false; mo := OEnter 0 |} 0 init RNone); reflexivity. }
+    assert (R2 : mreach 61 {| grp := [s1]; mW := 7; gwoken := false; mo := OIn 0 false |}).
+    { eapply mr_step; [exact R1|]. apply (m_register 61 {| grp := [init]; mW := 7; gwoken := false; mo := OEnter 0 false |} 0 false init RNone); reflexivity. }
     assert (R3 : mreach 61 {| grp := [s2]; mW := 7; gwoken := false; mo := OIdle RPending |}).
     { eapply mr_step; [exact R2|].
-      apply (m_group_pending 61 {| grp := [s1]; mW := 7; gwoken := false; mo := OIn 0 |} 0 s1 s2); try reflexivity.
+      apply (m_group_pending 61 {| grp := [s1]; mW := 7; gwoken := false; mo := OIn 0 false |} 0 false s1 s2); try reflexivity.
       left. split; [apply (p_empty 61 s1 0); [reflexivity|left; reflexivity]|]. split; [reflexivity|]. split; [reflexivity|]. exists 0; reflexivity. }
     assert (R4 : mreach 61 {| grp := [s3]; mW := 7; gwoken := false; mo := OIdle RPending |}).
     { eapply mr_step; [exact R3|].
